@@ -7,6 +7,7 @@ import (
 	"go/constant"
 	"go/token"
 	"go/types"
+	"sort"
 	"strings"
 
 	"golang.org/x/tools/go/ssa"
@@ -1389,5 +1390,245 @@ func ruleORD4b(w *World, r *Report) {
 	}
 	if n == 0 {
 		r.Und("ORD-4b", "anchor:run:writes-handout", w.Pos(fi.Decl.Pos()), "no response carrying a `writes` slice found in the writer goroutine")
+	}
+}
+
+// ruleORDdel: the internal id of a vector is resolved BEFORE the index forgets it.
+func ruleORDdel(w *World, r *Report) {
+	r.Doc("ORD-del", "wherever the engine deletes a vector from an index and then drops its metadata (live VDelete, and the replay of deletions onto a snapshot-restored index), the internal id is resolved before Index.Delete — which removes the external→internal mapping — and DeleteMetadata follows on the path where the id was found; the GRD-scan clause for the caller: resyncAOF is always started at the last valid offset itself", 2)
+	del := w.FuncObj("pkg/core/hnsw", "Index.Delete")
+	n := 0
+	for _, fi := range w.ModuleFuncs() {
+		if relPkg(fi.Obj) != "pkg/engine" {
+			continue
+		}
+		fn := w.SSAFunc(fi.Obj)
+		if fn == nil {
+			continue
+		}
+		isDelete := func(in ssa.Instruction) bool {
+			c, ok := in.(*ssa.Call)
+			if !ok {
+				return false
+			}
+			if c.Call.IsInvoke() {
+				return c.Call.Method.Name() == "Delete" && strings.HasSuffix(c.Call.Value.Type().String(), "core.VectorIndex")
+			}
+			return del != nil && calleeObj(&c.Call) == del
+		}
+		isResolve := func(in ssa.Instruction) bool { return isModCall(in, "pkg/core/hnsw", "Index.GetInternalID") }
+		isDropMeta := func(in ssa.Instruction) bool { return isModCall(in, "pkg/core", "DB.DeleteMetadata") }
+		dels := findInstrs(fn, isDelete)
+		if len(dels) == 0 || len(findInstrs(fn, isDropMeta)) == 0 {
+			continue
+		}
+		for i, d := range dels {
+			// only deletions that are followed by a metadata drop
+			if found, _ := (pathQuery{fn: fn, target: isDropMeta}).find(posOf(d)); !found {
+				continue
+			}
+			n++
+			// no resolution of the id after the delete on the way to the metadata drop
+			found, wit := (pathQuery{fn: fn, target: isResolve, avoid: func(x ssa.Instruction) bool { return x != d && isDelete(x) }}).find(posOf(d))
+			late := false
+			if found {
+				// is that resolve on a path to DeleteMetadata without another delete? (a loop may resolve the NEXT id)
+				if f2, _ := (pathQuery{fn: fn, target: isDropMeta, avoid: isDelete}).find(posOf(wit[len(wit)-1])); f2 {
+					late = true
+				}
+			}
+			r.Cond(!late, "ORD-del", fmt.Sprintf("%s:delete#%d:id-resolved-first", shortName(fi.Obj), i+1), w.Pos(d.Pos()), "the internal id is resolved before the index delete", shortName(fi.Obj)+" resolves the internal id AFTER Index.Delete removed the external→internal mapping: the lookup never succeeds, DeleteMetadata is skipped, and the deleted vector keeps its metadata, filter bitmaps and BM25 postings — text, hybrid and filter queries return an id that VGet says does not exist", w.witness(wit)...)
+		}
+	}
+	if n < 2 {
+		r.Und("ORD-del", "anchor:delete-then-drop-metadata", "", fmt.Sprintf("expected the live VDelete and the replay apply loop, found %d sites", n))
+	}
+}
+
+// ---------- ORD-9: no write is between journal and apply when the log before snapshot mode is discarded ----------
+
+// journalingOps: the pkg/engine functions that journal a command themselves (the administrative protocols and the
+// recovery code excluded), sorted.
+func (w *World) journalingOps() []*FuncInfo {
+	jw := w.journalObj()
+	var ops []*FuncInfo
+	for _, fi := range w.ModuleFuncs() {
+		if relPkg(fi.Obj) != "pkg/engine" || isReplayOrRestore(fi.Obj) {
+			continue
+		}
+		switch shortName(fi.Obj) {
+		case "Engine.saveSnapshotLocked", "Engine.RewriteAOF", "Engine.SaveSnapshot":
+			continue
+		}
+		fn := w.SSAFunc(fi.Obj)
+		if fn == nil {
+			continue
+		}
+		n := 0
+		for _, f := range append([]*ssa.Function{fn}, closuresOf(fn)...) {
+			n += len(findInstrs(f, callsTo(jw)))
+		}
+		if n > 0 {
+			ops = append(ops, fi)
+		}
+	}
+	sort.Slice(ops, func(i, j int) bool { return qname(ops[i].Obj) < qname(ops[j].Obj) })
+	return ops
+}
+
+// ruleORD9: SaveSnapshot and RewriteAOF serialise the in-memory state and then discard the log written before
+// BeginSnapshotMode. A command journaled before BeginSnapshotMode and applied after the state was read is in neither.
+// The code's own protocol against that is the engine's operation gate:
+//
+//	(a) every journaling operation is inside gate.enter … gate.leave from before its journal write until after the
+//	    last change it makes to memory (deferred leave, or an explicit leave that no memory change follows);
+//	(b) each protocol calls gate.drain after BeginSnapshotMode succeeded and before it reads any state of pkg/core;
+//	(c) drain can block (it has a wait), enter and drain touch the same counters under the gate's lock.
+func ruleORD9(w *World, r *Report) {
+	r.Doc("ORD-9", "no acknowledged write falls between snapshot and log: every journaling operation runs journal+apply inside the engine's operation gate, and SaveSnapshot/RewriteAOF drain that gate after BeginSnapshotMode succeeded and before reading any pkg/core state", 19)
+	jw := w.journalObj()
+	begin := w.FuncObj("pkg/persistence", "LazyAOFWriter.BeginSnapshotMode")
+	enter, leave, drain := w.FuncObj("pkg/engine", "opGate.enter"), w.FuncObj("pkg/engine", "opGate.leave"), w.FuncObj("pkg/engine", "opGate.drain")
+	if jw == nil || begin == nil {
+		r.Und("ORD-9", "anchor:LazyAOFWriter.Write/BeginSnapshotMode", "", "anchor lost")
+		return
+	}
+	if enter == nil || leave == nil || drain == nil {
+		r.Bad("ORD-9", "anchor:opGate", "", "the engine has no operation gate (opGate.enter/leave/drain): nothing makes SaveSnapshot/RewriteAOF wait for a write that was journaled before BeginSnapshotMode and is not applied yet; its command is truncated with the old log and is missing from the snapshot")
+		return
+	}
+	isEnter := callsTo(enter)
+	isLeaveCall := callsTo(leave)
+	isLeaveDefer := func(in ssa.Instruction) bool {
+		d, ok := in.(*ssa.Defer)
+		return ok && calleeObj(&d.Call) == leave
+	}
+	touchesCore := func(in ssa.Instruction) bool {
+		c, ok := in.(*ssa.Call)
+		if !ok {
+			return false
+		}
+		o := calleeObj(&c.Call)
+		return o != nil && strings.HasPrefix(relPkg(o), "pkg/core")
+	}
+	// insideGate: every instruction of host matching `at` executes between enter and leave, and no pkg/core call
+	// follows the leave; an unexported helper may instead be called only from inside the gate.
+	g := w.VTA()
+	var insideGate func(host *ssa.Function, at func(ssa.Instruction) bool, depth int) (bool, string, []ssa.Instruction)
+	insideGate = func(host *ssa.Function, at func(ssa.Instruction) bool, depth int) (bool, string, []ssa.Instruction) {
+		entered, wit := mustPrecede(host, isEnter, at, nil)
+		if !entered || len(findInstrs(host, isEnter)) == 0 {
+			obj, _ := host.Object().(*types.Func)
+			if obj != nil && !obj.Exported() && depth < 3 && g.Nodes[host] != nil {
+				n := 0
+				for _, e := range g.Nodes[host].In {
+					if e.Caller == nil || e.Caller.Func == nil || e.Site == nil || !inModule(e.Caller.Func) || isTestFile(w.Fset, e.Caller.Func.Pos()) {
+						continue
+					}
+					site := e.Site.(ssa.Instruction)
+					n++
+					if ok, why, wit2 := insideGate(e.Caller.Func, func(in ssa.Instruction) bool { return in == site }, depth+1); !ok {
+						return false, "is called by " + shortFn(e.Caller.Func) + ", which " + why, wit2
+					}
+				}
+				if n > 0 {
+					return true, "unexported helper, every caller is inside the operation gate", nil
+				}
+			}
+			return false, "journals its command without having entered the operation gate", wit
+		}
+		if f1, w1 := (pathQuery{fn: host, target: at}).findVia(entryPos(host), isLeaveCall); f1 {
+			return false, "leaves the operation gate before it journals", w1
+		}
+		if okDefer, _ := mustPrecede(host, isLeaveDefer, at, nil); okDefer && len(findInstrs(host, isLeaveDefer)) > 0 {
+			return true, "gate entered before the journal write, left by a deferred call", nil
+		}
+		for _, j := range findInstrs(host, at) {
+			if f2, w2 := (pathQuery{fn: host, target: touchesCore}).findVia(posOf(j), isLeaveCall); f2 {
+				return false, "leaves the operation gate before it finished changing memory", w2
+			}
+		}
+		return true, "gate entered before the journal write and left only after the last pkg/core call", nil
+	}
+	// (a)
+	ops := w.journalingOps()
+	r.Count("journaling_operations", len(ops))
+	for _, fi := range ops {
+		fn := w.SSAFunc(fi.Obj)
+		q := shortName(fi.Obj)
+		for _, f := range append([]*ssa.Function{fn}, closuresOf(fn)...) {
+			js := findInstrs(f, callsTo(jw))
+			if len(js) == 0 {
+				continue
+			}
+			key := q + ":journal-inside-gate"
+			if f != fn {
+				key = q + ":closure:journal-inside-gate"
+			}
+			host := f
+			isJ := callsTo(jw)
+			if f != fn {
+				// a closure journals: the gate must be entered in the operation before the closure is created
+				host = fn
+				isJ = func(in ssa.Instruction) bool {
+					mc, ok := in.(*ssa.MakeClosure)
+					return ok && mc.Fn == f
+				}
+				if len(findInstrs(host, isJ)) == 0 {
+					r.Und("ORD-9", key, w.Pos(js[0].Pos()), "a nested closure of "+q+" journals a command; its creation site is not in the operation itself")
+					continue
+				}
+			}
+			ok, why, wit := insideGate(host, isJ, 0)
+			r.Cond(ok, "ORD-9", key, w.Pos(js[0].Pos()), why, q+" "+why+": a SaveSnapshot/RewriteAOF that begins between the journal write and the change to memory truncates the command and does not see its effect — the acknowledged write is lost on restart", w.witness(wit)...)
+		}
+	}
+	// (b)
+	nb := 0
+	for _, fi := range w.ModuleFuncs() {
+		if relPkg(fi.Obj) == "pkg/persistence" {
+			continue
+		}
+		fn := w.SSAFunc(fi.Obj)
+		if fn == nil {
+			continue
+		}
+		for _, f := range append([]*ssa.Function{fn}, closuresOf(fn)...) {
+			for i, b := range findInstrs(f, callsTo(begin)) {
+				nb++
+				key := fmt.Sprintf("%s:drain-after-BeginSnapshotMode#%d", shortName(fi.Obj), i+1)
+				found, wit := pathQuery{fn: f, target: touchesCore, avoid: callsTo(drain), blocked: failureEdges(f, b.(*ssa.Call))}.find(posOf(b))
+				r.Cond(!found, "ORD-9", key, w.Pos(b.Pos()), "the gate is drained between BeginSnapshotMode and the first pkg/core call", shortName(fi.Obj)+" reads the in-memory state after BeginSnapshotMode without draining the operation gate: a write journaled before BeginSnapshotMode may not be applied yet, so it is missing from the serialised state while its log record is discarded", w.witness(wit)...)
+				// and not before: a drain placed before BeginSnapshotMode waits for the wrong set of operations
+				if len(findInstrs(f, callsTo(drain))) == 0 {
+					continue
+				}
+			}
+		}
+	}
+	if nb < 2 {
+		r.Und("ORD-9", "anchor:BeginSnapshotMode-callers", "", fmt.Sprintf("expected the two snapshot protocols to call BeginSnapshotMode, found %d call(s)", nb))
+	}
+	// (c) the gate itself: drain can block; enter, leave and drain all work under the gate's own mutex
+	for _, gf := range []*types.Func{enter, leave, drain} {
+		fn := w.SSAFunc(gf)
+		if fn == nil {
+			r.Und("ORD-9", "anchor:"+shortName(gf), "", "no body")
+			continue
+		}
+		locks := findInstrs(fn, func(in ssa.Instruction) bool { return isCallTo(in, "sync", "Mutex.Lock") })
+		r.Cond(len(locks) > 0, "ORD-9", shortName(gf)+":under-gate-mutex", w.Pos(fn.Pos()), "works under the gate's mutex", shortName(gf)+" no longer takes the gate's mutex: the in-flight counters race and drain can miss an operation")
+	}
+	if fn := w.SSAFunc(drain); fn != nil {
+		waits := findInstrs(fn, func(in ssa.Instruction) bool {
+			if u, ok := in.(*ssa.UnOp); ok && u.Op == token.ARROW {
+				return true
+			}
+			if _, ok := in.(*ssa.Select); ok {
+				return true
+			}
+			return isCallTo(in, "sync", "Cond.Wait") || isCallTo(in, "sync", "WaitGroup.Wait")
+		})
+		r.Cond(len(waits) > 0, "ORD-9", "opGate.drain:blocks", w.Pos(fn.Pos()), "drain contains a blocking wait", "opGate.drain never blocks: the snapshot protocols no longer wait for the operations that journaled before BeginSnapshotMode")
 	}
 }
